@@ -91,7 +91,9 @@ func (data RemoveLiquidityV240) Run(tx *Transaction, context state.Interface, re
 	if isGasCommissionFromPoolSwap && swapper.GetID() == commissionPoolSwapper.GetID() {
 		commissionInBaseCoin, _ = commissionPoolSwapper.CalculateBuyForSellWithOrders(commission)
 		if tx.GasCoin == data.Coin0 && data.Coin1.IsBaseCoin() {
-			swapper = swapper.AddLastSwapStepWithOrders(commission, commissionInBaseCoin, true)
+			// the commission is sold into the pool (PairSellWithOrders below): replay it as a sale, so
+			// that the part of it that is burned does not count as reserve
+			swapper = swapper.AddLastSwapStepWithOrders(commission, commissionInBaseCoin, false)
 		}
 		if tx.GasCoin == data.Coin1 && data.Coin0.IsBaseCoin() {
 			swapper = swapper.AddLastSwapStepWithOrders(big.NewInt(0).Neg(commissionInBaseCoin), big.NewInt(0).Neg(commission), true)
